@@ -52,7 +52,7 @@ func init() {
 		},
 		Quick:    200000,
 		Thorough: 3000000,
-		Require:  []string{"upload.contextEndedDuringLibraryRead", "pool.objectRecycled", "middleware.resumedAfterAppWasDone", "transfer.multiBlock", "retransmission", "latehandler.resumedAfterRequestWasReleased", "lateblock.copyWaitsForTheGuard"},
+		Require:  []string{"upload.contextEndedDuringLibraryRead", "pool.objectRecycled", "middleware.resumedAfterAppWasDone", "transfer.multiBlock", "retransmission", "latehandler.resumedAfterRequestWasReleased", "lateblock.copyWaitsForTheGuard", "lateblock.copyJoinsThroughLoadOrStore"},
 		Assume: []string{
 			"read-after-release is detected by its effects (poison on the wire or in a hand-over), not by intercepting every accessor; data races are outside a cooperative simulation",
 			"GC is off during a run and workers use one P, so sync.Pool hands objects back in LIFO order: the object released last is acquired next",
